@@ -37,3 +37,33 @@ Proof.
   pose proof (move_endpoint_lands cur s c1 a1 Hc Ha) as H.
   destruct (_move_endpoint ROps cur c1 a1 s) as [c2 a2]. exact H.
 Qed.
+
+(* the snap changes nothing but the end point: same letter and same leading arguments (control points, radii, flags)
+   for every letter that carries its end point as its last two arguments; H/V become the L/l to the target *)
+Definition endpoint_last_letters : list ascii := ["M"; "m"; "L"; "l"; "C"; "c"; "S"; "s"; "Q"; "q"; "T"; "t"; "A"; "a"].
+
+Theorem move_endpoint_keeps_rest (cur tgt : Pt) c (a : list R) :
+  In c endpoint_last_letters -> num_args c = Some (List.length a) ->
+  fst (_move_endpoint ROps cur c a tgt) = c /\
+  firstn (List.length a - 2) (snd (_move_endpoint ROps cur c a tgt)) = firstn (List.length a - 2) a /\
+  List.length (snd (_move_endpoint ROps cur c a tgt)) = List.length a.
+Proof.
+  intros Hc Ha. destruct tgt as [tx ty]. destruct cur as [cx cy].
+  unfold endpoint_last_letters in Hc. cbn [In] in Hc.
+  repeat (destruct Hc as [<-|Hc]); [..|contradiction];
+    fix_arity Ha a;
+    unfold _move_endpoint, _explicit_lines_callback; crunch; cbn [Point_x Point_y fst snd]; crunch;
+    repeat split; reflexivity.
+Qed.
+
+Theorem move_endpoint_hv (cur tgt : Pt) c (a : list R) :
+  In c ["H"; "h"; "V"; "v"] -> num_args c = Some (List.length a) ->
+  fst (_move_endpoint ROps cur c a tgt) = (if is_lower c then "l" else "L") /\
+  List.length (snd (_move_endpoint ROps cur c a tgt)) = 2%nat.
+Proof.
+  intros Hc Ha. destruct tgt as [tx ty]. destruct cur as [cx cy]. cbn [In] in Hc.
+  repeat (destruct Hc as [<-|Hc]); [..|contradiction];
+    fix_arity Ha a;
+    unfold _move_endpoint, _explicit_lines_callback; crunch; cbn [Point_x Point_y fst snd]; crunch;
+    split; reflexivity.
+Qed.
